@@ -11,6 +11,7 @@ import (
 	"path/filepath"
 
 	"github.com/zerx-lab/wordZero/pkg/document"
+	"github.com/zerx-lab/wordZero/pkg/style"
 
 	"verif/sim"
 )
@@ -269,6 +270,22 @@ func (w *World) applyMisc(ds *Doc, op sim.Op, o *Obs) bool {
 		}
 	case "math":
 		d.AddMathFormula(op.Str(0), op.Int(0) != 0)
+
+	// ---- styles: S[0]=id S[1]=name S[2]=type S[3]=basedOn
+	case "style.add":
+		st := d.GetStyleManager().CreateCustomStyle(op.Str(0), op.Str(1), style.StyleType(op.Str(2)), op.Str(3))
+		if st == nil {
+			o.Res = "nil"
+		}
+	case "style.quick": // I[0]=bold I[1]=size I[2]=has paragraph config
+		cfg := style.QuickStyleConfig{ID: op.Str(0), Name: op.Str(1), Type: style.StyleType(op.Str(2)), BasedOn: op.Str(3),
+			RunConfig: &style.QuickRunConfig{Bold: op.Int(0) != 0, FontSize: op.Int(1), FontColor: "112233"}}
+		if op.Int(2) != 0 {
+			cfg.ParagraphConfig = &style.QuickParagraphConfig{Alignment: "center", SpaceBefore: 6, LineSpacing: 1.5}
+		}
+		_, o.Err = style.NewQuickStyleAPI(d.GetStyleManager()).CreateQuickStyle(cfg)
+	case "style.rm":
+		d.GetStyleManager().RemoveStyle(op.Str(0))
 	default:
 		return false
 	}
